@@ -3,6 +3,7 @@ package main
 import (
 	"fmt"
 	"sort"
+	"strconv"
 )
 
 type tableReq struct {
@@ -51,6 +52,11 @@ func checkTableEncoder(c *checkCtx, n int) {
 						row = append(row, c.rng.intn(400)-100)
 					}
 				}
+			}
+			if i > 0 && c.rng.chance(1, 4) {
+				// a row that collides with an earlier one under a careless sharing key (digits or hex digits
+				// concatenated without separator, sums, permutations, sign or zero padding)
+				row = collidingRow(c.rng, pool[c.rng.intn(len(pool))])
 			}
 			if row == nil {
 				row = []int{}
@@ -183,4 +189,73 @@ func sortedMap(m map[int]int) [][2]int {
 	}
 	sort.Slice(out, func(i, j int) bool { return out[i][0] < out[j][0] })
 	return out
+}
+
+// collidingRow derives from a row a DIFFERENT row that a non-injective row key could confuse with it.
+func collidingRow(r *rng, base []int) []int {
+	row := append([]int{}, base...)
+	if len(row) == 0 {
+		return []int{0}
+	}
+	switch r.intn(6) {
+	case 0, 1:
+		// move a digit across a boundary: [1,12] <-> [11,2], [97,97] <-> [9,797]
+		for try := 0; try < 8; try++ {
+			k := r.intn(len(row))
+			if k+1 >= len(row) || row[k] < 0 || row[k+1] < 0 {
+				continue
+			}
+			a, b := fmt.Sprint(row[k]), fmt.Sprint(row[k+1])
+			base := 10
+			if r.chance(1, 4) {
+				a, b, base = fmt.Sprintf("%x", row[k]), fmt.Sprintf("%x", row[k+1]), 16
+			}
+			var na, nb string
+			if len(a) > 1 && r.chance(1, 2) {
+				na, nb = a[:len(a)-1], a[len(a)-1:]+b
+			} else if len(b) > 1 && b[1] != '0' {
+				na, nb = a+b[:1], b[1:]
+			} else {
+				continue
+			}
+			if len(nb) > 1 && nb[0] == '0' {
+				continue
+			}
+			x, e1 := strconv.ParseInt(na, base, 64)
+			y, e2 := strconv.ParseInt(nb, base, 64)
+			if e1 != nil || e2 != nil || x > 2147483647 || y > 2147483647 {
+				continue
+			}
+			row[k], row[k+1] = int(x), int(y)
+			return row
+		}
+		return append(row, 0)
+	case 2:
+		// permutation (same sum, same xor, same multiset)
+		if len(row) > 1 {
+			i, j := r.intn(len(row)), r.intn(len(row))
+			row[i], row[j] = row[j], row[i]
+		}
+		return row
+	case 3:
+		// same sum, different elements
+		if len(row) > 1 && row[0] < 2147483647 && row[1] > -2147483648 {
+			row[0]++
+			row[1]--
+		}
+		return row
+	case 4:
+		// sign moved
+		k := r.intn(len(row))
+		if row[k] != -2147483648 {
+			row[k] = -row[k]
+		}
+		return row
+	default:
+		// zero padding: [5] vs [5,0] vs [0,5]
+		if r.chance(1, 2) {
+			return append(row, 0)
+		}
+		return append([]int{0}, row...)
+	}
 }
